@@ -66,6 +66,10 @@ TResult ==
        \* C14 / C15: Do returns a response after the call's context was cancelled: its body is closed, nothing hangs,
        \* and the call does not succeed with anything but canceled
        [] sc.op = "late_response" -> ~Cur.stuck /\ Cur.closed /\ ~Cur.ok /\ Cur.code = 1
+       \* C14: a Receive that fails while the call is alive (the message is above the read limit) returns; so do the
+       \* program's closing operations
+       [] sc.op = "recvfail_live" -> /\ Cur.stuck_at = "" /\ Len(Cur.codes) = 4
+                                     /\ Cur.codes[1] = 0 /\ Cur.codes[2] \in {3, 8}
        [] sc.op = "client_init_fail" ->
             /\ Cur.reached = 0 /\ Len(Cur.codes) >= 8
             /\ IF sc.used = "badurl"
